@@ -1,7 +1,7 @@
 """C15 Capitalisation fixes change only letter case."""
 from hypothesis import strategies as st
 
-from vlib import fixlib
+from vlib import gens, fixlib
 from vlib.framework import Check, Outcome
 from vlib.sf import Crash
 
@@ -109,6 +109,14 @@ class C15(Check):
             for c in fixlib.pinned_slice(tier, ["capitalisation"], per, per, offset=5 + i):
                 c["policies"] = pol
                 yield c
+
+        # every fixture of every dialect once, alternating all-upper / all-lower policies: a quoted literal or
+        # identifier that one dialect's grammar hangs directly under a re-cased node shows up in a single fixture
+        for d in gens.dialects():
+            for j, r in enumerate(gens.corpus(d, 1500)):
+                k = "upper" if j % 2 else "lower"
+                yield {"dialect": d, "sql": r["sql"], "origin": r["name"], "rules": "capitalisation",
+                       "policies": {"kw": k, "lit": k, "ident": k, "func": k, "type": k, "uip": "all"}}
 
     def strategy(self, tier):
         base = fixlib.fix_case(tier=tier, rules=st.just("capitalisation"),
